@@ -12,8 +12,8 @@ from sim.poolsim import run_pool
 EXPECT_DEAD = {
     "WP_thread": {"SpWaitPrev", "WaTimeout"}, "WP_mto": {"WkStart", "WkEnd", "WkRemove", "WaTimeout"},
     "WP_noprimary": {"SpWaitPrev", "PrWake", "PrRead", "PrStart", "PrEnd", "PrRemove", "PrPost", "WaTimeout"},
-    "WP_thread_big": {"SpWaitPrev", "WaTimeout"}, "WP_mto_big": {"WkStart", "WkEnd", "WkRemove"},
-    "WP_noprimary_big": {"SpWaitPrev", "PrWake", "PrRead", "PrStart", "PrEnd", "PrRemove", "PrPost"},
+    "WP_thread_big": {"SpWaitPrev", "WaTimeout"}, "WP_mto_big": {"WkStart", "WkEnd", "WkRemove", "WaTimeout"},
+    "WP_noprimary_big": {"SpWaitPrev", "PrWake", "PrRead", "PrStart", "PrEnd", "PrRemove", "PrPost", "WaTimeout"},
 }
 PROG_OF_CFG = {
     "WP_thread": dict(mto=False, hasprimary=True, spawners=["s1", "s2"], tasks_per=2, shutter=True, waiters=["w1"]),
